@@ -290,8 +290,8 @@ Section Sign.
       destruct H1 as [blk [dtbs [sg [B1 [B2 [B3 [B4 [B5 B6]]]]]]]].
       assert (HV1 : Valid_stack hash (ib_stack b1) (pk :: pks)).
       { subst b1. unfold push. cbn [ib_stack].
-        apply (VS_cons hash _ _ _ _ blk dtbs); cbn [is_attrs is_sig]; try assumption.
-        rewrite iblock_eta. exact B1. }
+        apply (VS_cons hash _ _ _ _ blk dtbs); cbn [is_attrs is_sig];
+          first [assumption | rewrite iblock_eta; exact B1]. }
       destruct (IH b1 (pk :: pks) b' HV1 H) as [newer [E1 [E2 E3]]].
       exists (newer ++ [{| is_attrs := a; is_sig := sg |}]). split; [|split].
       + rewrite E1. subst b1. unfold push. cbn [ib_stack]. rewrite <- app_assoc. reflexivity.
@@ -335,7 +335,7 @@ Section Sign.
     intros HF H. destruct (stack_invariant hash ops b' H) as [HV [HA HL]].
     split; [|exact HL]. exists (rev (map fst ops)). split; [exact HV|].
     assert (HF2 : Forall2 (fun (a : attrs) pk => In (pk_attr_name, pk) a) (map snd ops) (map fst ops)).
-    { induction HF as [|op ops Hop HF IH]; cbn [map]; constructor; assumption. }
+    { clear - HF. induction HF as [|op ops Hop HF IH]; cbn [map]; constructor; assumption. }
     apply Forall2_rev in HF2. rewrite <- HA in HF2.
     remember (ib_stack b') as st eqn:Est. remember (rev (map fst ops)) as pks eqn:Epks.
     clear - HF2. revert pks HF2. induction st as [|s st IH]; intros pks HF2; cbn [map] in HF2.
@@ -363,7 +363,12 @@ Section Sign.
   Definition pk_attrs_bytes (pk : bytes) : bytes := [161; 112] ++ pk_attr_name ++ enc_bytes pk.
 
   Lemma attrs_cbor_pk (pk : bytes) : attrs_cbor (pk_attrs pk) = Ok (pk_attrs_bytes pk).
-  Proof. reflexivity. Qed.
+  Proof.
+    rewrite attrs_cbor_unfold. change (keys_utf8 (pk_attrs pk)) with true. cbv iota.
+    unfold enc_map, sort_entries, pk_attrs, pk_attrs_bytes.
+    cbn [map isort insert adjacent_dup flat_map fst snd attr_entry].
+    rewrite app_nil_r. reflexivity.
+  Qed.
 
   (* what the single signature of sign_file is computed over *)
   Definition sign_file_dtbs (file pk : bytes) : bytes :=
@@ -425,10 +430,11 @@ Section Sign.
       { destruct (obtain_never_panics file) as [E|E]; [|exact E].
         unfold sign_file in H. rewrite E in H. discriminate. }
       split; [exact Ho|]. rewrite (sign_file_unfold file pk Ho) in H.
-      destruct (strat_sign (sign_file_dtbs file pk)) as [sg| | |]; cbn [bind] in H; try discriminate.
-      destruct (ed_ok pk (sign_file_dtbs file pk) sg); cbn [negb] in H; [|discriminate].
+      destruct (strat_sign (sign_file_dtbs file pk)) as [sg| | |] eqn:Hs; cbn [bind] in H; try discriminate.
+      destruct (ed_ok pk (sign_file_dtbs file pk) sg) eqn:He; cbn [negb] in H; [|discriminate].
       destruct (det_accepts (one_sig_bytes pk sg)) eqn:Hd; cbn [negb] in H; [|discriminate].
-      injection H as <-. exists sg. apply det_accepts_iff in Hd. repeat split; assumption.
+      injection H as <-. exists sg. apply det_accepts_iff in Hd.
+      repeat split; try assumption; reflexivity.
     - intros [Ho [sg [H1 [H2 [H3 H4]]]]]. rewrite (sign_file_unfold file pk Ho).
       rewrite H1. cbn [bind]. rewrite H2. cbn [negb].
       apply det_accepts_iff in H3. rewrite H3. cbn [negb]. rewrite H4. reflexivity.
